@@ -50,7 +50,8 @@ RECURSIVE Replay(_, _, _)
 Replay(j, hist, i) ==      \* the JIT state after the first i events of hist
   IF i = 0 THEN j
   ELSE LET p == Replay(j, hist, i - 1)  e == hist[i] IN
-       IF e.t = "call" THEN AfterCall(p, e.h, e.kind)
+       IF e.t = "call" THEN (IF "h2" \in DOMAIN e /\ e.h2 # "" THEN AfterCall(AfterCall(p, e.h, e.kind), e.h2, e.kind)
+                             ELSE AfterCall(p, e.h, e.kind))
        ELSE IF e.t = "proc" THEN NewProcess(p, e.cache) ELSE Wipe(p)
 
 (* verdict for one executed call e of a recorded history:
@@ -60,5 +61,7 @@ Judge(e) ==
   IF e.err # "" THEN "C08:raised-under-numba"
   ELSE IF ~e.sametype THEN "C08:result-type-differs-from-python"
   ELSE IF \E g \in DOMAIN e.eq : ~e.eq[g] THEN "C08:numba-result-differs-from-python"
+  ELSE IF ~e.sametype2 THEN "C08:result-type-differs-from-python(second-helper-of-the-call)"
+  ELSE IF \E g \in DOMAIN e.eq2 : ~e.eq2[g] THEN "C08:numba-result-differs-from-python(second-helper-of-the-call)"
   ELSE ""
 =============================================================================
